@@ -236,6 +236,9 @@ def check_groups(case):
             names = ['key%d' % q for q in range(nk)]
             f = sf.Frame(gen.freeze(arr), index=names + ['uid'], columns=['c%d' % j for j in range(m)])
             gkey = names if nk > 1 else names[0]
+            if case.get('go'):
+                f = f.to_frame_go()
+                classes.append('go-source')
             r = lib(lambda: list(f.iter_group_items(gkey, axis=1)))
             if isinstance(r, Raised):
                 raise Failure('raised:%s' % r.cls, 'iter_group_items(%r, axis=1) raised %r' % (gkey, r.exc), r.where)
@@ -261,6 +264,9 @@ def check_groups(case):
             arr = np.vstack(rows)
             f = sf.Frame(gen.freeze(arr), index=('key', 'uid'), columns=['c%d' % j for j in range(m)])
         gkey = ['key'] if case.get('axis1_list') else 'key'  # (a list of one key row: the key may come back as a 1-tuple)
+        if case.get('go'):
+            f = f.to_frame_go()
+            classes.append('go-source')
         r = lib(lambda: list(f.iter_group_items(gkey, axis=1)))
         if isinstance(r, Raised):
             raise Failure('raised:%s' % r.cls, "iter_group_items(%r, axis=1) raised %r" % (gkey, r.exc), r.where)
